@@ -1,12 +1,16 @@
 import Votca.Lemmas.C10
 import Votca.Gen.JobLock
+import Votca.Model.C10R
+import Mathlib.Tactic.Common
 /-! # C10 — every job in a shared job file is executed exactly once and never lost
 
 About `Votca.C10.run` (replayed against the real `ProgObserver` running in forked processes under a controlled
 interleaving), for every number of processes `P`, cache size `c`, number of jobs `J` and every interleaving of the
 load / merge / back-up / assign / write / unlock / execute steps.  The lock mode is the one the translator reads from
 progressobserver.cc on every run (`Votca.Gen.JobLock.lockMode`).
-Not modelled: `maxjobs`, restart patterns, `fcntl` semantics over network file systems, stream buffering granularity. -/
+The job file with a history, restart patterns and `maxjobs` are a second model (`Votca.C10R`, end of this file): step-level
+theorems, and the whole-run behaviour tied by replaying the real processes' interleavings on it.
+Not modelled: `fcntl` semantics over network file systems, stream buffering granularity. -/
 namespace Votca.C10
 open PC Status
 
@@ -80,3 +84,91 @@ example : (jobsRun (run Mode.exclusive 2 1 2 init
     [0,0,0,0,0,0,0,0, 1,1,1,1,1,1,1,1, 0,0, 1,1, 0,0,0,0,0,0,0,0, 1,1,1,1,1,1,1,1])).length = 2 := by decide
 
 end Votca.C10
+
+/-! # restart patterns, `maxjobs`, job files with a history (`Votca/Model/C10R.lean`) -/
+namespace Votca.C10R
+open Status
+
+/-- **results are never overwritten by another process**, the merge step: the record of a job owned by another host is taken from
+    the job file as it stands — status, host, output and error text; nothing of the merging process's own (possibly older) view
+    of that job survives -/
+theorem merge_takes_foreign_record (p q : Nat) (ext mem : Nat → Job) (j : Nat) (hq : (ext j).host = some q) (hne : q ≠ p) :
+    merge p ext mem j = ext j := by
+  unfold merge
+  rw [hq]
+  simp only [hne, ne_eq, not_false_eq_true, if_true]
+  unfold updateFrom
+  rw [hq]
+  cases h : ext j
+  simp_all
+
+/-- … and a job this process owns (or nobody owns yet) keeps the process's own record: the file cannot overwrite what the
+    process has computed and not yet written -/
+theorem merge_keeps_own_record (p : Nat) (ext mem : Nat → Job) (j : Nat) (h : (ext j).host = some p ∨ (ext j).host = none) :
+    merge p ext mem j = mem j := by
+  unfold merge
+  rcases h with h | h <;> simp [h]
+
+/-- **restart patterns re-open exactly what they name**: the start test of the assignment loop -/
+theorem restart_opens_exactly (c : Cfg) (jb : Job) :
+    startable c jb = true ↔
+      jb.status = avail ∨ (c.restartMode = true ∧ (jb.status ∈ c.stats ∨ ∃ h, jb.host = some h ∧ h ∈ c.hosts)) := by
+  unfold startable
+  cases hh : jb.host with
+  | none => simp [hh]
+  | some h => simp [hh]; tauto
+
+/-- without a restart pattern only AVAILABLE jobs are started -/
+theorem no_pattern_only_available (c : Cfg) (jb : Job) (h : c.restartMode = false) :
+    startable c jb = true ↔ jb.status = avail := by
+  rw [restart_opens_exactly]; simp [h]
+
+/-- the assignment loop touches a record only to assign a startable job to this process (cleared output and error text:
+    `Job::Reset`), never exceeds `maxjobs` started jobs in total and never fills the cache beyond its size -/
+theorem assign_spec (p : Nat) (c : Cfg) (J : Nat) : ∀ (fuel : Nat) (mem : Nat → Job) (mpos : Nat) (cache : List Nat) (started : Nat),
+    (∀ j, (assign p c J fuel mem mpos cache started).1 j = mem j ∨
+          (startable c (mem j) = true ∧ (assign p c J fuel mem mpos cache started).1 j = ⟨assigned, some p, none, none⟩)) ∧
+    (started ≤ c.maxjobs → (assign p c J fuel mem mpos cache started).2.2.2 ≤ c.maxjobs) ∧
+    (cache.length ≤ c.cache → (assign p c J fuel mem mpos cache started).2.2.1.length ≤ c.cache) := by
+  intro fuel
+  induction fuel with
+  | zero => intro mem mpos cache started; simp [assign]
+  | succ fuel ih =>
+    intro mem mpos cache started
+    unfold assign
+    split
+    · rename_i hc
+      split
+      · rename_i hs
+        obtain ⟨h1, h2, h3⟩ := ih (upd mem mpos (assignTo p (mem mpos))) (mpos + 1) (cache ++ [mpos]) (started + 1)
+        refine ⟨?_, ?_, ?_⟩
+        · intro j
+          by_cases hj : j = mpos
+          · subst hj
+            rcases h1 j with h | ⟨_, h⟩
+            · right; refine ⟨hs, ?_⟩; rw [h]; simp [upd, assignTo]
+            · right; exact ⟨hs, h⟩
+          · rcases h1 j with h | ⟨hst, h⟩
+            · left; rw [h]; simp [upd, hj]
+            · right; refine ⟨?_, h⟩; simpa [upd, hj] using hst
+        · intro hle; exact h2 (by omega)
+        · intro hle; exact h3 (by simp; omega)
+      · exact ih mem (mpos + 1) cache started
+    · refine ⟨fun j => Or.inl rfl, fun h => h, fun h => h⟩
+
+/-- `ReportJobDone`: the record a process reports carries its own host, and either COMPLETE with its output or FAILED with its
+    error text -/
+theorem report_record (fails : Nat → Nat → Bool) (p j : Nat) (jb : Job) :
+    (report fails p j jb).host = some p ∧
+    (fails p j = false → (report fails p j jb).status = complete ∧ (report fails p j jb).out = some p) ∧
+    (fails p j = true → (report fails p j jb).status = failed ∧ (report fails p j jb).err = some p) := by
+  unfold report
+  cases fails p j <;> simp
+
+/-! non-vacuity: process 0 holds an old FAILED record with an error text, the file holds process 1's COMPLETE record: the merge
+    takes the file's record and the stale error text is gone -/
+example : merge 0 (fun _ => ⟨complete, some 1, some 1, none⟩) (fun _ => ⟨failed, some 100, none, some 100⟩) 3 = ⟨complete, some 1, some 1, none⟩ := by
+  decide
+
+end Votca.C10R
+
